@@ -296,6 +296,7 @@ impl Property for C07 {
             real: None,
             note: "c07".into(),
             decoy_in_cwd: false,
+            echo_mode: false,
         };
         let xobs = run_xargs(&xs, ctx);
         rep.executions += 1;
